@@ -147,7 +147,11 @@ def doInherit (w : World) (s : BState) (mods q : Nat) : BState :=
                       nvars := s.nvars + Q.nvt }
     (List.range Q.flags.length).foldl (copyStep w q Q mods) s
 
-/-- define_new_function (name, num_arg = 0, num_local, flags, type): `flags` = NAME_UNDEFINED|NAME_PROTOTYPE for the
+/-- the number of parameters of a generated function is a function of its name (fK has K mod 3 parameters): the
+    `num_arg` the grammar passes to define_new_function -/
+def arityOf (fn : String) : Nat := if fn.startsWith "f" then digitsOf fn % 3 else 0
+
+/-- define_new_function (name, num_arg, num_local, flags, type): `flags` = NAME_UNDEFINED|NAME_PROTOTYPE for the
     header / a prototype, 0 for the definition proper; all generated functions are typed, so exact_types is on -/
 def defineNewFunction (s : BState) (name : NameKey) (nameStr : String) (flags mods : Nat) : BState × Option Nat :=
   let isProto := hasBit flags namePrototype
@@ -164,14 +168,14 @@ def defineNewFunction (s : BState) (name : NameKey) (nameStr : String) (flags mo
           if sl.isLocal then (s, sl.cidx)
           else ({ s with cfuncs := s.cfuncs ++ [{ name, nameStr, rindex := rn }] }, s.cfuncs.length)
         let s := modifySlot s rn (fun sl => { sl with isLocal := true, cidx := num, flags := mods ||| flags ||| nameStrictTypes,
-                                                      rt := .defn num 0, aliasFor := sl.aliasFor + 1 })
+                                                      rt := .defn num (arityOf nameStr), aliasFor := sl.aliasFor + 1 })
         let s := { s with cfuncs := s.cfuncs.modify num (fun c => { c with rindex := rn }) }
         (s, some num)
   | none =>
     let num := s.cfuncs.length
     let rn := s.slots.length
     ({ s with cfuncs := s.cfuncs ++ [{ name, nameStr, rindex := rn }],
-              slots := s.slots ++ [{ flags := mods ||| flags ||| nameStrictTypes, rt := .defn num 0, isLocal := true,
+              slots := s.slots ++ [{ flags := mods ||| flags ||| nameStrictTypes, rt := .defn num (arityOf nameStr), isLocal := true,
                                      cidx := num, aliasFor := 1 }],
               idents := s.idents ++ [(name, rn)] },
      if isProto then none else some num)
